@@ -50,6 +50,8 @@ def run(F, rep, tier):
     if g is None or T is None:
         return
     driver_guard_rule(F, rep, T)
+    driver_decision_rule(F, rep, T)
+    lexer_mode_rule(F, rep)
     a = lalr.build_lalr(g)
     actions, conflicts = lalr.resolve_actions(a)
     info, mism = lalr.compare(a, actions, T)
@@ -432,3 +434,166 @@ def const_value(T, e):
         v = const_value(T, e["a"])
         return -v if v is not None else None
     return None
+
+
+def driver_decision_rule(F, rep, T):
+    """R06.6: what the driver does with the number it reads from a table is bison's: after YY_PACT the default action iff the value is YY_PACT_N_INF;
+    after YY_TABLE shift iff > 0, error iff YY_TABLE_N_INF, otherwise reduce; after YY_DEF_ACT error iff 0, otherwise reduce. Decided from the path
+    conditions (type-checked HIR) under which `action` is assigned each variant: the comparisons of yy_n with constants are evaluated on the finitely
+    many representative values, so any equivalent arrangement of the tests passes."""
+    import hirflow
+    rid = rep.rule("R06.6", "the driver turns the table value into shift / reduce / error / default exactly as bison's skeleton (regions of yy_n decided on representative values)")
+    names = [k for k in F.hir if re.match(r"^dmntk_feel_parser::parser::Parser::(<[^>]*>::)?parse$", k)]
+    if not names:
+        rep.missing_anchor(rid, "Parser::parse (HIR)")
+        return
+    h = F.hir[names[0]]
+    fl = hirflow.Flow(h)
+    consts = {k: v for k, v in T.c.items() if isinstance(v, int)}
+    ninf, pninf = consts.get("YY_TABLE_N_INF"), consts.get("YY_PACT_N_INF")
+    if ninf is None or pninf is None:
+        rep.missing_anchor(rid, "YY_TABLE_N_INF / YY_PACT_N_INF")
+        return
+
+    def is_yyn(d):
+        return isinstance(d, tuple) and d and d[0] == "field" and d[1] == "yy_n"
+
+    def const_of(d):
+        if isinstance(d, tuple) and d and d[0] == "lit" and isinstance(d[1], int):
+            return d[1]
+        if isinstance(d, tuple) and d and d[0] == "def":
+            return consts.get((d[1] or "").split("::")[-1])
+        if isinstance(d, tuple) and d and d[0] == "un" and d[1] == "-":
+            c = const_of(d[2])
+            return -c if c is not None else None
+        return None
+
+    def holds(entry, v):
+        """truth of the conjunction of the simple yy_n-vs-constant comparisons for yy_n = v (None if a condition about yy_n is not of that form)"""
+        for c in entry:
+            d, pats, taken = c
+            if "yy_n" not in repr(d):
+                continue
+            if not (isinstance(d, tuple) and d and d[0] == "bin" and d[1] in ("==", "!=", "<", "<=", ">", ">=")):
+                return None
+            a, b, op = d[2], d[3], d[1]
+            if is_yyn(b) and const_of(a) is not None:
+                a, b, op = b, a, {"<": ">", ">": "<", "<=": ">=", ">=": "<=", "==": "==", "!=": "!="}[op]
+            k = const_of(b)
+            if not is_yyn(a) or k is None:
+                return None
+            r = {"==": v == k, "!=": v != k, "<": v < k, "<=": v <= k, ">": v > k, ">=": v >= k}[op]
+            if r != taken:
+                return False
+        return True
+    # table reads into yy_n, in source order
+    reads = []
+    for tgt, val, cond, entry, line in fl.assigns:
+        if tgt and tgt[0] == "field" and tgt[1] == "yy_n":
+            m = re.search(r"lalr::(YY_TABLE|YY_DEF_ACT|YY_PACT)'", repr(val))
+            node = [x for x, _ in find_hir(h["body"], lambda x: x.get("k") == "Assign" and x.get("l") == line)]
+            txt = json.dumps(node[0]["b"]) if node else ""
+            m2 = re.search(r"lalr::(YY_TABLE|YY_DEF_ACT|YY_PACT)\"", txt)
+            reads.append((line, (m or m2).group(1) if (m or m2) else None))
+    expected = {"YY_TABLE": {ninf: {"Error"}, -1: {"Reduce"}, 0: {"Reduce"}, 1: {"Shift"}},
+                "YY_DEF_ACT": {0: {"Error"}, 1: {"Reduce"}},
+                "YY_PACT": {pninf: {"Default"}, 0: set()}}
+    got = {t: {v: set() for v in vs} for t, vs in expected.items()}
+    nass = 0
+    for tgt, val, cond, entry, line in fl.assigns:
+        if tgt != ("local", "action") or not (val and val[0] == "ctor"):
+            continue
+        variant = val[1].split("::")[-1]
+        prior = [t for (l, t) in reads if l < line and t]
+        if not prior:
+            continue
+        tab = prior[-1]
+        if any(isinstance(c[0], tuple) and c[0] and c[0][0] == "bin" and c[0][1] == "||" and "yy_n" in repr(c[0]) for c in entry):
+            continue      # the range / YY_CHECK test (R06.5)
+        if not entry or "yy_n" not in repr(entry[-1][0]):
+            continue      # the innermost test that selects this assignment is not about yy_n (e.g. the lexer's error token)
+        nass += 1
+        for v in expected[tab]:
+            r = holds(entry, v)
+            if r is None:
+                rep.violation(rid, "decision:%s@%s" % (variant, tab), "the condition under which `action = %s` is chosen after reading %s (line %s) is not a comparison of yy_n with a constant: cannot be judged"
+                              % (variant, tab, line), "%s:%s" % (h["file"], line))
+                break
+            if r:
+                got[tab][v].add(variant)
+    label = {ninf: "YY_TABLE_N_INF", pninf: "YY_PACT_N_INF", -1: "a negative value", 0: "0", 1: "a positive value"}
+    for tab, exp in expected.items():
+        for v, want in exp.items():
+            key = "decision:%s:%s" % (tab, label.get(v, v))
+            if got[tab][v] == want:
+                rep.ok(rid, key, "%s -> %s" % (label.get(v, v), sorted(want) or "falls through to the look-ahead"))
+            else:
+                rep.violation(rid, key, "after reading %s, the value %s leads to %s; bison's skeleton prescribes %s" % (tab, label.get(v, v), sorted(got[tab][v]) or "no action", sorted(want) or "no action here"),
+                              "%s:%s" % (h["file"], h["line"]))
+    rep.floor(rid, "action assignments decided by yy_n", nass, 6)
+
+
+def lexer_mode_rule(F, rep):
+    """R06.7: the parser switches the lexer into a mode for the next token(s) through setter methods (`set_between`, `set_till_in`, ...): a boolean
+    field set to true. A mode must end: either next_token() clears it unconditionally after every token, or every branch that is taken because the
+    flag is set clears it. A mode that stays on re-interprets later tokens (`a between 1 and 2 and b`: the second `and`)."""
+    rid = rep.rule("R06.7", "every lexer mode flag switched on by a setter is switched off: unconditionally after each token, or in every branch selected by the flag")
+    LEX = "dmntk_feel_parser::lexer::Lexer::"
+    meths = {n: h for n, h in F.hir.items() if n.startswith(LEX) and h.get("kind") == "method"}
+
+    def self_field(e):
+        e = strip(e)
+        if e.get("k") == "Field" and strip(e["e"]).get("k") == "Path" and strip(e["e"]).get("name") == "self":
+            return e["name"]
+        return None
+
+    def assigns(node, value):
+        out = []
+        for a, _ in find_hir(node, lambda x: x.get("k") == "Assign"):
+            f = self_field(a["a"])
+            b = strip(a["b"])
+            if f and b.get("k") == "Lit" and b.get("lit") == "bool" and b.get("v") is value:
+                out.append(f)
+        return out
+    flags = set()
+    for n, h in meths.items():
+        st = h["body"]["b"].get("stmts", []) if h["body"].get("k") == "Block" else []
+        if h.get("vis") == "pub" and len(st) == 1 and h["body"]["b"].get("e") is None:
+            flags |= set(assigns(st[0], True))
+    rep.floor(rid, "lexer mode flags (boolean fields with a setter)", len(flags), 4)
+    nt = [h for n, h in meths.items() if n.endswith("::next_token")]
+    uncond = set()
+    for h in nt:
+        for st in h["body"]["b"].get("stmts", []):
+            if st.get("k") == "Assign":
+                uncond |= set(assigns(st, False))
+
+    def conjuncts(c):
+        c = strip(c)
+        if c.get("k") == "Binary" and c.get("op") == "&&":
+            return conjuncts(c["a"]) + conjuncts(c["b"])
+        return [c]
+    for f in sorted(flags):
+        key = "mode:%s" % f
+        if f in uncond:
+            rep.ok(rid, key, "cleared unconditionally by next_token() after every token")
+            continue
+        branches = []
+        for n, h in meths.items():
+            for m, _ in find_hir(h["body"], lambda x: x.get("k") == "Match"):
+                for arm in m["arms"]:
+                    if "g" in arm and f in [self_field(c) for c in conjuncts(arm["g"])]:
+                        branches.append((arm["b"], arm.get("l"), n))
+            for i, _ in find_hir(h["body"], lambda x: x.get("k") == "If"):
+                c = i["c"]
+                if c.get("k") != "Let" and f in [self_field(x) for x in conjuncts(c)]:
+                    branches.append((i["then"], i.get("l"), n))
+        if not branches:
+            rep.violation(rid, key, "mode flag `%s` is switched on by a setter but no branch of the lexer is selected by it and it is never cleared unconditionally" % f, "feel-parser/src/lexer.rs")
+            continue
+        bad = [(l, n) for b, l, n in branches if f not in assigns(b, False)]
+        if bad:
+            rep.violation(rid, key, "the branch at line %s of %s is taken because `%s` is set but does not clear it: the mode stays on and re-interprets later tokens"
+                          % (bad[0][0], bad[0][1].split("::")[-1], f), "feel-parser/src/lexer.rs:%s" % bad[0][0])
+        else:
+            rep.ok(rid, key, "%d branch(es) selected by the flag, each clears it" % len(branches))
